@@ -16,7 +16,8 @@ def run(ck):
         'impl reaches the canonical/on-curve/subgroup validators and turns CtOption into Err; (R4) the vk transcript '
         'representative covers domain, fixed commitments, permutation commitments and every non-excluded ConstraintSystem field; '
         '(R5) every owner of a proof transcript that calls prepare() calls assert_empty() on all success paths; '
-        '(R6) public-input count is compared with the key before prepare().  These are necessary conditions of the property; '
+        '(R6) public-input count is compared EXACTLY (!=) with the key before prepare(); (R7) Fiat–Shamir statement binding: key identity and instances are '
+        'absorbed before the first challenge; in R3 also: the buffer filled by read_exact is decoded unmodified.  These are necessary conditions of the property; '
         'collision resistance and the pairing algebra are not decided.')
     r1_absorb(ck, w)
     r2_raw_cursor(ck, w)
